@@ -279,6 +279,9 @@ func runC08(c *fw.Ctx) {
 		c08Run(c, fmt.Sprintf("gen-imports:%d", g), pair, b, func() (*dst.File, error) { return dec(b) }, rres, dec)
 	}
 
+	// (c) gotypes over generated multi-package programs
+	c08Generated(c)
+
 	// (b) gotypes over type-checked std packages
 	dirs := c08Dirs(c)
 	for i, dir := range dirs {
@@ -310,6 +313,56 @@ func runC08(c *fw.Ctx) {
 			id := "typed:" + corpus.Rel(fn)
 			c08Run(c, id, "gotypes+simple", src, func() (*dst.File, error) {
 				d := decorator.NewDecoratorWithImports(tc.fset, pkgPath, gotypes.New(tc.info.Uses))
+				return d.DecorateFile(af)
+			}, simple.New(names), nil)
+		}
+	}
+}
+
+// c08Generated: type-checked multi-package programs (dot-imports, also two in one file; aliases;
+// two packages with one name; vendored paths; blank imports) decorated with the types-based resolver
+// and restored, unedited, with a map resolver.
+func c08Generated(c *fw.Ctx) {
+	names := map[string]string{}
+	for _, l := range gen.Libs {
+		names[l.ImportPath] = l.Name
+	}
+	n := c.Pick(160, 4000)
+	for g := 0; g < n; g++ {
+		if !c.Mine(g) {
+			continue
+		}
+		r := c.Rand(fmt.Sprintf("prog/%d", g))
+		p := gen.GenProgram(r, 1+r.Intn(3))
+		srcs := map[string]string{}
+		ok := true
+		var order []string
+		for _, f := range p.Files {
+			cs, good := gen.Canonicalise([]byte(f.Src))
+			if !good {
+				ok = false
+				break
+			}
+			srcs[f.Name] = string(cs)
+			order = append(order, f.Name)
+		}
+		if !ok {
+			c.Count("inconclusive_generated_not_canonical", 1)
+			continue
+		}
+		sort.Strings(order)
+		files, info, _, err := p.Check(srcs, p.PkgPath)
+		if err != nil {
+			c.Count("inconclusive_program_rejected_by_go_types", 1)
+			continue
+		}
+		for k, af := range files {
+			src := []byte(srcs[order[k]])
+			af := af
+			dots := strings.Count(string(src), "\t. \"") + strings.Count(string(src), "import . \"")
+			c.Observe("generated_dot_imports_per_file", fmt.Sprint(dots))
+			c08Run(c, fmt.Sprintf("gen:%d/%s", g, order[k]), "gotypes+simple/generated", src, func() (*dst.File, error) {
+				d := decorator.NewDecoratorWithImports(p.Fset, p.PkgPath, gotypes.New(info.Uses))
 				return d.DecorateFile(af)
 			}, simple.New(names), nil)
 		}
